@@ -44,6 +44,9 @@ type pathModel struct {
 	lost map[int]bool
 	// extra is called for every probe emission (after genuine replies were scheduled)
 	extra func(e *simEnv, p *refmatch.Probe)
+	// destDelayFor, when set, gives the delay of the destination's reply per probe TTL (replies of the destination to
+	// later probes may overtake its reply to the first probe that reached it)
+	destDelayFor func(ttl int) time.Duration
 }
 
 // simEnv is one flow on one wire.
@@ -176,7 +179,11 @@ func (e *simEnv) onEmit(h *simnet.Handle, em *simnet.Emission) {
 				b = m.destBuild(e, pr)
 			}
 			if b != nil {
-				e.inject(b, "genuine-dest", pr, oddUS(m.destDelay))
+				dd := m.destDelay
+				if m.destDelayFor != nil {
+					dd = m.destDelayFor(ttl)
+				}
+				e.inject(b, "genuine-dest", pr, oddUS(dd))
 				for _, d := range m.destDups {
 					e.inject(b, "genuine-dest-dup", pr, oddUS(d))
 				}
